@@ -63,6 +63,9 @@ type Console struct {
 	Respond func(c *Console, written []byte) []byte
 	// Silent disables all automatic replies.
 	Silent bool
+	// NegativeTcap: answer XTGETTCAP queries for capabilities the terminal lacks with the
+	// failure form `DCS 0 + r <name> ST` instead of staying silent.
+	NegativeTcap bool
 	// VersionString is the XTVERSION reply (default "fake 1.0").
 	VersionString string
 	// InitCol is the (1-based) column the cursor is in when Vaxis starts (0 = column 1).
@@ -226,10 +229,14 @@ func (c *Console) script(p []byte) []byte {
 		case strings.HasPrefix(rest, "\x1bP+q524742\x1b\\"): // RGB
 			if c.Caps.RGB {
 				out.WriteString("\x1bP1+r524742=38\x1b\\")
+			} else if c.NegativeTcap {
+				out.WriteString("\x1bP0+r524742\x1b\\") // "not available", echoing the name
 			}
 		case strings.HasPrefix(rest, "\x1bP+q536D756C78\x1b\\"): // Smulx
 			if c.Caps.StyledUnderlines {
 				out.WriteString("\x1bP1+r536D756C78=5C455B343A25703125646D\x1b\\")
+			} else if c.NegativeTcap {
+				out.WriteString("\x1bP0+r536D756C78\x1b\\")
 			}
 		case strings.HasPrefix(rest, "\x1bP$q q\x1b\\"):
 			if c.Caps.CursorStyle >= 0 {
